@@ -1250,3 +1250,64 @@ def z_name_alphabets(chk, c, rule):
                    'validate() reports `Invalid element found` for a message STRICT accepted' % (''.join(miss), miss[0] if miss else ''),
                    '%s:%d' % (fi.module.relpath, call.lineno), key='%s|%s|%d|%s' % (rule, fname, k, ''.join(miss)))
     chk.floor('segment-name classes of the Z-name expressions', len(classes), 3)
+
+
+def conversion_as_validator(chk, c, rule):
+    """Children are addressed by their *canonical* positional name (`'%s_%d' % (prefix, i)` in the encoder, `int(name[4:])`
+    when a field is attached), but `int()` accepts many spellings of one number ('3', '03', '+3', ' 3', non-ASCII digits).
+    Contradiction rule: a predicate that decides whether a text is a valid index by *trying* `int(text)` and discarding the
+    result must also pin the spelling down (round trip `str(int(t)) == t`, `t.isdigit()` / `isdecimal()` plus a leading-zero
+    test, or a regular expression); otherwise a child is admitted under a name that the encoder never looks up, and its
+    value silently disappears from the encoding."""
+    import ast
+    from ..src import own_nodes, norm
+    ix = c.index
+    n = 0
+    for fq, fi in sorted(ix.functions.items()):
+        mn = fi.module.name
+        if mn.startswith('v2_') or mn in ('mllp',):
+            continue
+        tried = []
+        for x in own_nodes(fi.node):
+            call = None
+            bound = None
+            if isinstance(x, ast.Expr) and isinstance(x.value, ast.Call):
+                call = x.value
+            elif isinstance(x, ast.Assign) and isinstance(x.value, ast.Call) and len(x.targets) == 1 and isinstance(x.targets[0], ast.Name):
+                call, bound = x.value, x.targets[0].id
+            if call is None or not (isinstance(call.func, ast.Name) and call.func.id == 'int' and len(call.args) == 1):
+                continue
+            # inside a try whose handler answers "not valid" (returns False / None): the conversion is a validity test
+            p = x
+            in_try = False
+            while getattr(p, '_parent', None) is not None and p is not fi.node:
+                t = p._parent
+                if isinstance(t, ast.Try) and any(p is b for b in t.body) and any(
+                        isinstance(r, ast.Return) and (r.value is None or (isinstance(r.value, ast.Constant) and r.value.value in (False, None)))
+                        for h in t.handlers for r in ast.walk(h)):
+                    in_try = True
+                p = t
+            if in_try:
+                tried.append((x, call, bound))
+        for x, call, bound in tried:
+            n += 1
+            arg = norm(call.args[0])
+            pinned = False
+            strs = {'str(%s)' % norm(call)} | ({'str(%s)' % bound} if bound else set())
+            for y in own_nodes(fi.node):
+                if isinstance(y, ast.Call) and isinstance(y.func, ast.Attribute) and y.func.attr in ('isdigit', 'isdecimal') and \
+                        norm(y.func.value) == arg:
+                    pinned = True
+                if isinstance(y, ast.Call) and isinstance(y.func, ast.Attribute) and y.func.attr in ('match', 'fullmatch') and \
+                        any(norm(a) == arg for a in y.args):
+                    pinned = True
+                if isinstance(y, ast.Compare) and len(y.ops) == 1 and isinstance(y.ops[0], (ast.Eq, ast.NotEq)):
+                    sides = [norm(y.left), norm(y.comparators[0])]
+                    if arg in sides and any(s_ in strs for s_ in sides):
+                        pinned = True
+            chk.ob(rule, '%s: `%s` is tried as a validity test and the spelling is pinned down' % (fq, norm(call)), pinned,
+                   '`%s` only has to succeed: `03`, `+3`, ` 3` and non-ASCII digits pass as well, so a child is admitted under a name '
+                   'that is not the canonical `<prefix>_<i>` the encoder looks children up by -- its value is silently left out of '
+                   'the encoding instead of the name being refused with ChildNotFound' % norm(call),
+                   '%s:%d' % (fi.module.relpath, x.lineno), key='%s|%s|%s' % (rule, fq, arg))
+    chk.floor('conversions used as validity tests', n, 1)
